@@ -419,6 +419,50 @@ def c10_structure(units, R):
         raise AnalysisBroken('C10: parameter require_null_terminated not found')
     tb = [n for n in cfg.nodes if n.kind == 'branch' and is_ref(n.expr) and strip_casts(n.expr)['d'] == rnt['d']]
     R.floor('C10T', 'tests of require_null_terminated', len(tb), 1)
+    def cmp_is_terminator(e):
+        """+1 / -1 when e is `<byte read> == 0` / `!= 0`, else 0"""
+        p = cmp_parts(e)
+        if p is None or p[2] != 0 or p[1] not in ('==', '!='):
+            return 0
+        acc = access(p[0]) if p[0].get('k') in ('idx', 'un') else None
+        if acc is None:
+            return 0
+        return 1 if p[1] == '==' else -1
+    # static predicates that answer "is the byte at the cursor the terminator" (possibly after skipping whitespace):
+    # every true result is the comparison itself or lies behind its equal edge
+    term_helpers = {}
+    for h in u.function_list:
+        if not h.static or h.name == fn.name:
+            continue
+        hcfg = h.cfg()
+        hrets = [r for r in hcfg.returns() if r.expr is not None and const_val(r.expr) != 0]
+        if not hrets:
+            continue
+
+        def hpassed(nn, l):
+            return nn.kind == 'branch' and l is not None and cmp_is_terminator(nn.expr) != 0 and \
+                (cmp_is_terminator(nn.expr) == 1) == (l[0] == 'T')
+        good = True
+        for r in hrets:
+            if cmp_is_terminator(strip_casts(r.expr)) == 1:
+                continue
+            if const_val(r.expr) is not None and guarded_by(hcfg, r.id, hpassed):
+                continue
+            good = False
+        if good:
+            skips = any(callee_name(c) == 'buffer_skip_whitespace' for c in h.calls())
+            term_helpers[h.name] = skips
+
+    def helper_test(e):
+        """(name, polarity) when e is H(..) or a comparison of H(..) with 0"""
+        e = strip_casts(e)
+        if e.get('k') == 'call' and callee_name(e) in term_helpers:
+            return callee_name(e), True
+        p = cmp_parts(e)
+        if p is not None and p[2] == 0 and p[1] in ('==', '!=') and strip_casts(p[0]).get('k') == 'call' and \
+                callee_name(strip_casts(p[0])) in term_helpers:
+            return callee_name(strip_casts(p[0])), p[1] == '!='
+        return None
     for n in tb:
         tsucc = [y for (y, l) in cfg.succ[n.id] if l and l[0] == 'T']
 
@@ -426,6 +470,9 @@ def c10_structure(units, R):
             # edge on which "byte at the cursor is '\0'" holds
             if nn.kind != 'branch' or l is None:
                 return False
+            ht = helper_test(nn.expr)
+            if ht is not None:
+                return ht[1] == (l[0] == 'T')
             p = cmp_parts(nn.expr)
             if p is None or p[2] != 0 or p[1] not in ('==', '!='):
                 return False
@@ -449,9 +496,9 @@ def c10_structure(units, R):
              not bad, 'every path from the test to the successful return passes the comparison' if not bad else
              'successful return reachable without the terminator comparison', key='term-check')
         # whitespace is skipped before the comparison
-        sk = [m.id for m in cfg.nodes if m.expr is not None and any(callee_name(c) == 'buffer_skip_whitespace'
-                                                                    for c in walk(m.expr) if c.get('k') == 'call')
-              and any(m.id in cfg.reachable(t) | {t} for t in tsucc)]
+        sk = [m.id for m in cfg.nodes if m.expr is not None and any(
+            callee_name(c) == 'buffer_skip_whitespace' or term_helpers.get(callee_name(c)) for c in walk(m.expr) if c.get('k') == 'call')
+            and any(m.id in cfg.reachable(t) | {t} for t in tsucc)]
         cmpn = [m for m in cfg.nodes if m.kind == 'branch' and (passed(m, ('T', m.expr)) or passed(m, ('F', m.expr)))]
         good = bool(sk) and all(any(cfg.dominates(s, m.id) for s in sk) for m in cmpn if any(m.id in cfg.reachable(t) | {t} for t in tsucc))
         R.ob('C10T', fn, n.expr, 'trailing whitespace is skipped before the terminator comparison', good, '', key='term-skip')
@@ -885,11 +932,42 @@ def _failure_value(fn, u):
     return 0
 
 
+def _int_under(e, var_d, K):
+    """Integer value of e when var_d holds the integer K and e mentions no other variable (None otherwise)."""
+    v = const_val(e)
+    if v is not None:
+        return v
+    e = strip_casts(e)
+    k = e.get('k')
+    if k == 'ref':
+        return K if (e.get('d') == var_d and isinstance(K, int)) else None
+    if k == 'bin' and e['op'] in ('+', '-', '*', '&', '|', '^', '<<', '>>'):
+        l, r = _int_under(e['l'], var_d, K), _int_under(e['r'], var_d, K)
+        if l is None or r is None:
+            return None
+        return {'+': l + r, '-': l - r, '*': l * r, '&': l & r, '|': l | r, '^': l ^ r, '<<': l << (r & 63), '>>': l >> (r & 63)}[e['op']]
+    if k == 'bin' and e['op'] in CMP_OPS:
+        l, r = _int_under(e['l'], var_d, K), _int_under(e['r'], var_d, K)
+        if l is None or r is None:
+            return None
+        return int({'==': l == r, '!=': l != r, '<': l < r, '<=': l <= r, '>': l > r, '>=': l >= r}[e['op']])
+    if k == 'un' and e['op'] in ('-', '~', '!'):
+        x = _int_under(e['e'], var_d, K)
+        if x is None:
+            return None
+        return {'-': -x, '~': ~x, '!': int(not x)}[e['op']]
+    return None
+
+
 def _fold_under(e, var_d, K):
     """Truth of condition e under the hypothesis that variable var_d holds K (None if undecided)."""
     e = strip_casts(e)
     if e.get('k') == 'ref' and e.get('d') == var_d:
         return (K != 0) if K != 'null' else False
+    if isinstance(K, int) and not isinstance(K, bool):
+        v = _int_under(e, var_d, K)
+        if v is not None and any(x.get('k') == 'ref' and x.get('d') == var_d for x in walk(e)):
+            return v != 0
     if e.get('k') == 'bin' and e['op'] in CMP_OPS:
         for (x, y, flip) in ((e['l'], e['r'], False), (e['r'], e['l'], True)):
             x0 = strip_casts(x)
